@@ -19,7 +19,19 @@ TECHNIQUE = 'Lean 4 induction over call histories on an effect model + generated
 DESIGN_REF = 'DESIGN.md §3 C17'
 
 def gen_ops(tier, rng):
-    return []
+    """a sample of every op family of the line protocol: the implementation driver asks each op also through reused argument objects, after the
+    caller modified what an earlier call returned, and through one coordinate buffer (py_driver usage-pattern stress); an answer that depends on
+    any of that differs from the model (a pure function) and is reported as a failing call sequence"""
+    import gens
+    from props import _geo, c08, c10
+    ops = gens.id_ops('quick', rng, with_children=True)
+    ops = rng.sample(ops, min(len(ops), 600 if tier == 'quick' else 6000))
+    ops += _geo.point_ops(tier, rng, 60 if tier == 'quick' else 600)[: (250 if tier == 'quick' else 5000)]
+    ops += _geo.cell_ops(tier, rng, 40 if tier == 'quick' else 400)[: (150 if tier == 'quick' else 3000)]
+    o8 = c08.gen_ops('quick', rng); o10 = c10.gen_ops('quick', rng)
+    ops += rng.sample(o8, min(len(o8), 150)) + rng.sample(o10, min(len(o10), 80))
+    ops += gens.hex_ops('quick', rng)[-300:]
+    return ops
 
 def extra_tie(tier, rng):
     return c16.extra_tie(tier, rng)
